@@ -419,6 +419,13 @@ def _run_main(prog, tier):
             if dt is not None and U(n_.func) in ("array", "asarray", "zeros_like", "empty_like") and U(dt) not in WIDE and n_.args \
                     and any(isinstance(x, ast.Name) and x.id == fn.args.args[0].arg for x in ast.walk(n_.args[0])):
                 lossy.append((n_.lineno, U(n_)[:80]))
+    # ... nor may the array the end points are written into be of a narrower type than the sample
+    for n_ in ast.walk(fn):
+        if isinstance(n_, ast.Assign) and len(n_.targets) == 1 and isinstance(n_.targets[0], ast.Name) and n_.targets[0].id in out_names \
+                and isinstance(n_.value, ast.Call):
+            dt = get_kw(n_.value, "dtype")
+            if dt is not None and U(dt) not in WIDE:
+                lossy.append((n_.lineno, U(n_.value)[:80]))
     obs.append(struct_ob("endpoints-are-samples", construct, ok and len(stores) == 4 and not lossy,
                          "both end points must be sample values selected by index (no arithmetic on the values), which is what "
                          "makes the result covariant under positive affine maps"
